@@ -21,9 +21,14 @@ import (
 	"hash/fnv"
 	"os"
 	"path/filepath"
+	"regexp"
+	"runtime"
 	"sort"
+	"strings"
 	"sync"
+	"sync/atomic"
 	"testing"
+	"time"
 
 	"pgregory.net/rapid"
 )
@@ -284,6 +289,91 @@ func KnownOpen(sig string) bool {
 }
 
 // ---------------------------------------------------------------------------
+// wedge watchdog
+//
+// A goroutine of the code under test that waits for a mutex is not "durably
+// blocked" for testing/synctest, so a deadlock on a leaked lock wedges the
+// whole case instead of being reported. The watchdog looks at the case that
+// is running: when it has been running for VERIF_CASE_WATCHDOG seconds of
+// real time (default 120; ordinary cases take milliseconds) it dumps all
+// goroutines. If one of them has been waiting for a sync.Mutex / RWMutex for
+// at least a minute inside the repository's code, that is a deadlock of the
+// code under test: the case is written as the failing case and the process
+// exits 1. Otherwise the process exits 3 (wedged harness = inconclusive).
+
+var (
+	wdOnce      sync.Once
+	wdCaseStart atomic.Int64 // unix nanos, 0 = no case running
+	wdCurrent   atomic.Value // func() (prop, test string, c interface{})
+)
+
+var mutexWaitRe = regexp.MustCompile(`(?m)^goroutine \d+ \[(sync\.(RW)?Mutex\.(R)?Lock|semacquire)[^\]]*, (\d+) minutes`)
+
+func startWatchdog() {
+	wdOnce.Do(func() {
+		limit := time.Duration(EnvInt("VERIF_CASE_WATCHDOG", 120)) * time.Second
+		go func() {
+			for {
+				time.Sleep(5 * time.Second)
+				st := wdCaseStart.Load()
+				if st == 0 || time.Since(time.Unix(0, st)) < limit {
+					continue
+				}
+				buf := make([]byte, 8<<20)
+				buf = buf[:runtime.Stack(buf, true)]
+				dump := string(buf)
+				site := ""
+				for _, g := range strings.Split(dump, "\n\n") {
+					if !mutexWaitRe.MatchString(g) {
+						continue
+					}
+					for _, line := range strings.Split(g, "\n") {
+						line = strings.TrimSpace(line)
+						if strings.HasPrefix(line, "/repo/") {
+							site = strings.TrimPrefix(strings.Fields(line)[0], "/repo/")
+							if i := strings.LastIndex(site, ":"); i > 0 {
+								site = site[:i]
+							}
+							break
+						}
+					}
+					if site != "" {
+						break
+					}
+				}
+				get, _ := wdCurrent.Load().(func() (string, string, interface{}))
+				if site != "" && get != nil {
+					prop, test, c := get()
+					o := &Outcome{Fail: Failf(prop+"/deadlock/mutex/"+site, "the case has been running for %v of real time and a goroutine of the code under test has been waiting for a mutex for over a minute in %s: deadlock (lock never released)", time.Since(time.Unix(0, st)).Round(time.Second), site),
+						Info: map[string]interface{}{"goroutines": firstLines(dump, 120)}}
+					recordFail(prop, test, c, o)
+					fmt.Printf("--- FAIL: %s: %s: %s\n", test, o.Fail.Signature, o.Fail.Message)
+					os.Exit(1)
+				}
+				fmt.Printf("WEDGED: case running for %v, no mutex wait inside the repository found; goroutine dump follows\n%s\n", time.Since(time.Unix(0, st)), firstLines(dump, 200))
+				os.Exit(3)
+			}
+		}()
+	})
+}
+
+func firstLines(s string, n int) string {
+	l := strings.Split(s, "\n")
+	if len(l) > n {
+		l = l[:n]
+	}
+	return strings.Join(l, "\n")
+}
+
+// Watch marks the start of a case for the watchdog; call the returned func when it ends.
+func Watch(prop, test string, c interface{}) func() {
+	startWatchdog()
+	wdCurrent.Store(func() (string, string, interface{}) { return prop, test, c })
+	wdCaseStart.Store(time.Now().UnixNano())
+	return func() { wdCaseStart.Store(0) }
+}
+
+// ---------------------------------------------------------------------------
 // generic property runner
 
 // Prop ties a generator and an executor together. C must round-trip through
@@ -316,7 +406,9 @@ func (p Prop[C]) Main(t *testing.T) {
 		if rf.Test != "" && rf.Test != p.Test {
 			t.Skipf("replay file is for %s", rf.Test)
 		}
+		done := Watch(p.ID, p.Test, c)
 		o := p.Run(c)
+		done()
 		st.Record(o, sample(c, o))
 		if o.Fail != nil {
 			recordFail(p.ID, p.Test, c, o)
@@ -339,7 +431,9 @@ func (p Prop[C]) Main(t *testing.T) {
 			t.Fatalf("bad regression file %s: %v", f, err)
 		}
 		Journal(p.ID, p.Test, c)
+		done := Watch(p.ID, p.Test, c)
 		o := p.Run(c)
+		done()
 		st.mu.Lock()
 		st.f.Regress++
 		st.mu.Unlock()
@@ -361,7 +455,9 @@ func (p Prop[C]) Main(t *testing.T) {
 	rapid.Check(t, func(rt *rapid.T) {
 		c := p.Gen(rt)
 		Journal(p.ID, p.Test, c)
+		done := Watch(p.ID, p.Test, c)
 		o := p.Run(c)
+		done()
 		st.Record(o, sample(c, o))
 		if o.Fail != nil {
 			if KnownOpen(o.Fail.Signature) {
@@ -397,7 +493,9 @@ func readReplay[C any](path string) (C, *replayFile, error) {
 func (p Prop[C]) Enumerate(t *testing.T, st *Stats, cases func(yield func(C) bool)) {
 	cases(func(c C) bool {
 		Journal(p.ID, p.Test, c)
+		done := Watch(p.ID, p.Test, c)
 		o := p.Run(c)
+		done()
 		var s interface{} = c
 		if p.Sample != nil {
 			s = p.Sample(c, o)
